@@ -50,8 +50,10 @@ def exhaustive(tier, ctx):
     N = 6 if tier == "quick" else 10
     for n in range(0, N + 1):
         for c in constraints_for(n):
-            for sel in ("entity", "set_of"):
+            for sel in ("entity", "set_of", "match"):
                 for dom in ("list", "gen", "domainless", "scalar"):
+                    if sel == "match" and dom == "scalar":
+                        continue    # a pattern needs a class with fields
                     for filt in (False, True):
                         if dom == "scalar" and not filt:
                             continue        # the scalar form always carries a condition that binds the variable
@@ -77,7 +79,7 @@ def gen(rng, tier, ctx):
         c = [kind]
     else:
         c = [kind, around()]
-    return {"n": n, "c": c, "sel": rng.choice(["entity", "set_of"]), "dom": rng.choice(["list", "gen", "domainless", "scalar"]),
+    return {"n": n, "c": c, "sel": rng.choice(["entity", "set_of", "match"]), "dom": rng.choice(["list", "gen", "domainless"]),
             "filt": rng.random() < 0.5, "pad": rng.randint(0, 5)}
 
 
@@ -176,13 +178,26 @@ def run(spec, ctx):
         m.fresh_symbol_graph()
         objs = [m.S0(a=f, name=f"s{i}") for i, f in enumerate(flags)]
         x = let(m.S0, None, name="x")
+    elif spec["sel"] == "match":
+        m.fresh_symbol_graph()           # a pattern needs a Symbol class (its fields come from the class diagram)
+        objs = [m.S0(a=f, name=f"s{i}") for i, f in enumerate(flags)]
+        x = None
     else:
         objs = [m.P(a=f, name=f"p{i}") for i, f in enumerate(flags)]
         x = let(m.P, (iter(list(objs)) if spec["dom"] == "gen" else list(objs)), name="x")
     if not scalar:
         sols = [o for o in objs if o.a == 1] if filt else list(objs)
-        conds = [x.a == 1] if filt else []
-    desc = entity(x, *conds) if spec["sel"] == "entity" else set_of([x], *conds)
+        conds = [x.a == 1] if (filt and x is not None) else []
+    if spec["sel"] == "match":
+        # the same description written as a pattern (entity_matching on the same variable)
+        from krrood.entity_query_language.match import entity_matching
+        C["pattern_descriptions"] += 1
+        if spec["dom"] == "domainless":
+            desc = entity_matching(m.S0, None)(**({"a": 1} if filt else {}))
+        else:
+            desc = entity_matching(m.S0, (iter(list(objs)) if spec["dom"] == "gen" else list(objs)))(**({"a": 1} if filt else {}))
+    else:
+        desc = entity(x, *conds) if spec["sel"] == "entity" else set_of([x], *conds)
     before = sum(contracts.EVALS.values())
     lo_y, hi_y, exc = expected(len(sols), c)
     got, raised = [], None
@@ -199,7 +214,7 @@ def run(spec, ctx):
     except Exception as e:
         raised = e
     C["contract_evals"] += sum(contracts.EVALS.values()) - before
-    vals = [g if spec["sel"] == "entity" else g[x] for g in got]
+    vals = [g if spec["sel"] in ("entity", "match") else g[x] for g in got]
     rname = type(raised).__name__ if raised is not None else None
     problems = []
     if isinstance(raised, contracts.ContractBroken):
